@@ -960,3 +960,13 @@ def exact_ms_to_s(expr):
                            'last_modified'):
         return N.txt(stamp)
     return None
+
+
+def singleton_of(func, expr, want):
+    """expr is a one-element list / tuple / set display whose element is
+    ``want`` (text), after copy propagation of func's locals."""
+    expr = rexpr(func, expr) if func is not None else expr
+    if isinstance(expr, (ast.List, ast.Tuple, ast.Set)) and \
+            len(expr.elts) == 1:
+        return N.txt(expr.elts[0]) == want
+    return False
